@@ -24,7 +24,7 @@ ASSUMPTIONS = [
 COMPONENTS = {"real": ["string primitives in sexp.c/eval.c/vm.c (string-set! re-encoding, substring, append, copy!)", "UTF-8 port decode/encode",
                        "buffered port refill/flush, peek push-back", "read-string/read-line in init-7/extras/(chibi io)", "collector", "scheduler blocking on descriptors"],
               "stub": ["byte delivery/acceptance schedule (cookie FILE*, interposed read/write/poll, custom-port callbacks)", "collection schedule", "clock"]}
-BUDGET = {"quick": {"seconds": 50, "cases": 8000}, "thorough": {"seconds": 900, "cases": 600000}}
+BUDGET = {"quick": {"seconds": 50, "cases": 8000, "min_cases": 500}, "thorough": {"seconds": 900, "cases": 600000}}
 IMPORTS = ["(srfi 18)", "(chibi io)", "(scheme char)", "(prefix (chibi string) cs:)", "(prefix (srfi 130) s130:)"]
 CONFIGS = {
     "sim": {"variant": "sim", "imports": IMPORTS, "timeout_ms": 60000},
